@@ -47,6 +47,10 @@ CFG = {
         "Swat4.CleanRace.removing_run",
         "Swat4.CleanRace.removing_spares",
         "Swat4.C14.clean_removes_index_entries",
+        # the cleaner component (Model/CleanerComponent.lean: what the driver runs for a `cleaner` case) satisfies the driver's oracle
+        "Swat4.C14.cleaner_healthy_pass_complete",
+        "Swat4.C14.cleaner_pass_instances",
+        "Swat4.C14.cleaner_last_pass_complete",
     ],
     # proved in the Lean files and used by other proofs, but NOT audited as property theorems: each is a
     # read-back of a definition, glue between two names, true by type, or a corollary of an audited theorem
@@ -80,7 +84,9 @@ CFG = {
         "probe / list / clean / cleanins rules: a listing = the servers refreshed since clock - liveness, clean removes servers with last write < clock - retention, "
         "cleanins removes instances with last write <= clock - retention (inclusive, as coded), a keepalive succeeds iff its instance and the server it names are "
         "both still stored), the final comparison of the SV and IN/IU dump lines with the bookkeeping (svAddrs, inAddrs, inWrites), `othersBy` (race op) and "
-        "`handleCleaner` (no stale server after a healthy last pass, no stale instance after any last pass)",
+        "`handleCleaner` (evaluation, on the implementation's dump lines, of the Model predicates CleanerComponent.staleServer / staleInstance at the final clock of "
+        "the Model run CleanerComponent.cleanerPasses: no stale server after a healthy last pass, no stale instance after any last pass; the component's behaviour itself - "
+        "ticker, pass order, scan fault - is no longer driver code, and cleaner_last_pass_complete proves the oracle of the Model's own final state)",
     ],
     "manifest": {
         "text": "Lean theorems: listed_iff_live (a listing is exactly status AND refreshedAt >= now - liveness, with no dependence on cleanup), "
@@ -99,7 +105,11 @@ CFG = {
                 "pass interleaved with arbitrary non-removing clients in USys: the premise of C14_race - every pending copy is the stored record or strictly older - is derived "
                 "from the run (CleanRace.Pending, established by the fetch, kept by every event), no step of the cleaner removes a row that is at that moment refreshed after the "
                 "cutoff, and a pending copy that is still the stored record is removed at its turn); clean_removes_index_entries (through C10's removeBatch_consistent and C11's "
-                "rel_remove: the removal batch deletes the record together with its updated / refreshed scores and all nine status-set memberships).",
+                "rel_remove: the removal batch deletes the record together with its updated / refreshed scores and all nine status-set memberships). "
+                "Cleaner component (Model/CleanerComponent.lean: pass = clock += interval; cleanServers2 unless the scan is faulted; cleanInstances - the definition the driver runs for `cleaner` cases): "
+                "cleaner_healthy_pass_complete (after a healthy pass from a Keyed, RefLeUpd store no server with updatedAt < clock - retention and no instance with write time <= clock - retention remains, and "
+                "every non-outdated server is stored unchanged - corollary of clean_complete2 / clean_instances_state), cleaner_pass_instances (the instance clause after any pass, no hypothesis), "
+                "cleaner_last_pass_complete (over any script of healthy / faulted passes with interval >= 0 from a RefInv state: exactly the driver's oracle - healthy last pass => no stale server; no stale instance).",
         "level_note": "Trusted: Lean kernel (propext, Quot.sound, Classical.choice); atomic repository calls (C09/C11); Prog models of the cleaners and "
                       "the listing validated by the differential run; the bookkeeping oracle in the driver.",
         "technique": "Lean 4 proof (induction over the cleanup pass with a per-key frame lemma) + differential correspondence on a fake clock",
